@@ -819,4 +819,82 @@ example : WF 1 (runEcho 1 init nvHist) := reachable_echo_WF 1 nvHist nvHist_echo
 -- the echo is not literally a no-op on the list encoding (duplicates appear), only observably
 example : (runEcho 1 init nvHist) ≠ (run 1 init nvHist) ∧ (runEcho 1 init nvHist).info = (run 1 init nvHist).info := by decide
 
+/-! ### 14. more on the handlers: no nil-map write, namespaces kept across an update, raw requests -/
+
+/-- OnQuotaUpdate writes `quotaHierarchyInfo[newParent][name]` without creating the child set: for the event of an
+    ADMITTED update the set exists — on the admitting replica (before and after its own state update) and, by
+    `replicas_converge`, on every replica whose record equals the admitted objects. -/
+theorem handler_no_panic (d : Nat) (s : Topo) (q o : QI) (sw hp : Bool) (hW : WF d s)
+    (hfo : find s.info q.name = some o) (h : (validUpdate d s q sw hp).2 = true) :
+    onUpdatePanics s o q = false ∧ onUpdatePanics (validUpdate d s q sw hp).1 o q = false := by
+  by_cases hpar : o.parent = q.parent
+  · simp [onUpdatePanics, hpar]
+  · have hkey : s.hkeys.contains q.parent = true ∧ (validUpdate d s q sw hp).1.hkeys = s.hkeys := by
+      rcases validUpdate_true h with hst | ⟨o', hfo', hq0, _, _, htopo, hst⟩
+      · -- unchanged state: only possible through the shortcut, which needs equal parents
+        exfalso
+        have hsf : sameFields o q = true := by
+          by_cases hsf : sameFields o q = true
+          · exact hsf
+          · exfalso
+            have hsf' : sameFields o q = false := by simpa using hsf
+            have := validUpdate_checked (d := d) (sw := sw) (hp := hp) hfo hsf' h
+            rw [hst] at this
+            have hk := congrArg Topo.kids this
+            have hne : (o.parent != q.parent) = true := by simpa using hpar
+            simp only [updState, hne, if_true] at hk
+            have hmem : (q.parent, q.name) ∈ s.kids := by rw [hk]; exact List.mem_cons_self ..
+            obtain ⟨c, hc, hcn, hcp⟩ := (hW.forest.kidsOK _ _).mp hmem
+            obtain ⟨ho, hon⟩ := find_some hfo
+            have := uniq_of_nodup hW.forest.nodup c hc o ho (hcn.trans hon.symm)
+            exact hpar (this ▸ hcp)
+        unfold sameFields at hsf
+        simp only [Bool.and_eq_true, beq_iff_eq] at hsf
+        exact hpar hsf.1.1.1.1.1.1.1.1.1.1
+      · rw [hfo] at hfo'; cases hfo'
+        refine ⟨?_, by rw [hst]; rfl⟩
+        obtain ⟨_, _, hcase⟩ := topoCheck_true hq0 htopo
+        by_cases hp0 : q.parent = 0
+        · rw [hp0]; exact List.contains_iff_mem.mpr ((hW.hkeys 0).mpr (Or.inl rfl))
+        · rcases hcase with ⟨h0, _⟩ | ⟨hpi, _, _⟩
+          · exact absurd h0 hp0
+          · unfold parentInfoOK at hpi
+            simp only [hp0, if_false] at hpi
+            split at hpi
+            · cases hpi
+            · simp only [Bool.and_eq_true] at hpi; exact hpi.1.1
+    have hmem : q.parent ∈ s.hkeys := List.contains_iff_mem.mp hkey.1
+    simp [onUpdatePanics, hkey.2, hmem]
+
+/-- OnQuotaUpdate binds every namespace of the new object, also one the old object already had. -/
+theorem onUpdate_binds_new (s : Topo) (o q : QI) (n : Nat) (hne : o.ns ≠ q.ns) (hn : n ∈ q.ns) :
+    nsGet (onUpdate s o q).nsMap n = some q.name := by
+  have : (o.ns != q.ns) = true := by simpa using hne
+  simp only [onUpdate, this, if_true]
+  rw [nsGet_nsSetAll]; simp [hn]
+
+/-- the other order — bind the new namespaces, then unbind the old ones — loses a namespace that is in both lists:
+    quota 3 goes from [7, 8] to [8, 9]; namespace 8 is free afterwards and can be bound by another quota. -/
+theorem bind_then_unbind_counterexample :
+    nsGet (nsDelAll (nsSetAll [(7, 3), (8, 3)] [8, 9] 3) [7, 8]) 8 = none ∧
+    nsGet (nsSetAll (nsDelAll [(7, 3), (8, 3)] [7, 8]) [8, 9] 3) 8 = some 3 := by decide
+
+/-- raw requests (decoded labels / annotations / pod listing / mutating step) with the informer echo. -/
+theorem raw_echo_preserves_WF (d : Nat) (s : Topo) (r : RawOp) (hW : WF d s) (hr : NotRootAddRaw r)
+    (hk : ∀ op, decodeOp s r = some op → FlagsKept s.info op)
+    (h : (stepRawEcho d s r).2 = true) : WF d (stepRawEcho d s r).1 := by
+  unfold stepRawEcho at h ⊢
+  cases hd : decodeOp s r with
+  | none => simp [hd] at h
+  | some op =>
+    simp only [hd] at h ⊢
+    exact echo_preserves_WF d s op hW (notRootAdd_decode s r op hr hd) (hk op hd) h
+
+theorem raw_echo_reject_is_noop (d : Nat) (s : Topo) (r : RawOp) (h : (stepRawEcho d s r).2 = false) :
+    (stepRawEcho d s r).1 = s := by
+  unfold stepRawEcho at h ⊢
+  cases hd : decodeOp s r with
+  | none => rfl
+  | some op => simp only [hd] at h ⊢; exact echo_reject_is_noop d s op h
+
 end KoordVerif.C15
